@@ -14,6 +14,7 @@ code:  harness/c08      (package connectconformance): parsePatterns/matchPattern
 """
 import json
 import os
+import sys
 import subprocess
 import concurrent.futures
 
@@ -369,6 +370,12 @@ def replay_one(ctx, binp, binm):
 
 
 def run(ctx):
+    sys.path.insert(0, os.path.dirname(os.path.abspath(__file__)))
+    import g_cli
+    if ctx.replay and g_cli.owns_replay(ctx.replay):   # replay file written by the command-line leg
+        g_cli.leg(ctx)
+        ctx.cov["rule"] = "replay of one scenario"
+        return
     binp = ctx.go_test_bin(PKG, ["c08"])
     binm = ctx.go_test_bin(MAIN, ["c08main"])
     if ctx.replay:
@@ -398,6 +405,9 @@ def run(ctx):
     record_and_accept(ctx, binp, binm)
     # 5. the built binary
     binary_level(ctx, cscns)
+    # growth item: the command-line contract of the runner (CLI.tla: which flag combinations are usage errors, in which
+    # order they are diagnosed, and what a valid command line means) bound to the real command
+    g_cli.leg(ctx)
     ctx.cov["exhaustive"] = False
     ctx.cov["rule"] = (
         "TLC enumerates (a) every pattern of up to 4 (thorough 5) components over {a,b,*,**} against every name of up to 4 (5) "
